@@ -19,7 +19,8 @@ for f, d in cur:
 UNITS += [lambda: S.u_fit(C('FPS', 'sample', warm=True, nsel='none')), lambda: S.u_fit(C('FPS', 'feature', warm=True, nsel='float')),
           lambda: S.u_fit(C('FPS', 'sample', warm=True, thr='relative')), lambda: S.u_fit(C('FPS', 'sample', init='list2'))]
 UNITS += [lambda: S.u_voronoi_update()]
+EXTRA_MODULES = ['c08cur']      # (b) for the CUR family over the matrix-level contracts of contracts/cur.py
 RT = True
 TRUSTED = ["history independence = (a) init independent of the requested size, (b) one search step is a function of the state modulo buffer capacity, (c) _continue_greedy_search leaves that state unchanged, + induction on the schedule (the induction is a meta-argument, not machine-checked)",
            "FPS family: (b) and (c) are discharged by self-composition; (a) follows from the loop invariant of C02 (the table is the unique minimum over the selected prefix)",
-           "CUR family: (c) and the warm-started fit are discharged over the modular contracts of _compute_pi / X_orthogonalizer (C01 level); functional dependence of the scores on the residual is assumed (deterministic externals) — equality with the cold fit is bounded only (runtime chains)"]
+           "CUR family: (b) is discharged by self-composition over the matrix-level contracts of contracts/cur.py (X_orthogonalizer and _compute_pi as functions of their arguments; for PCov-CUR with refresh the scores are excluded: y_current_ is recomputed from capacity-dependent buffers), (c) and the warm-started fit are discharged over the modular contracts of _compute_pi / X_orthogonalizer (C01 level); functional dependence of the scores on the residual is assumed (deterministic externals) — equality with the cold fit is bounded only (runtime chains)"]
